@@ -2,6 +2,7 @@ import HidVerif.Hid.TypecheckStmt
 import HidVerif.Proofs.Escape
 import HidVerif.Proofs.ParseFuel
 import HidVerif.Proofs.TypeSoundProg
+import HidVerif.Proofs.NoInternalModes
 /-!
 # C10 — the compiler is total
 
@@ -77,5 +78,38 @@ self.expr.type`, `assert not self.expr.type.const`): this is how `wtE` reads on 
 theorem cast_node_operand_type (fs : List FuncSig) (k : HidVerif.Hid.CastK) (e : TE) (h : wtE fs (.cast k e) = true) :
     castSrcOK k (typeOf e) = true := by
   simp only [wtE, Bool.and_eq_true] at h; exact h.2
+
+/-- the typechecker model never reports an internal error (an `assert` of `hidc/ast`, an unknown operator class) on a
+program the parser accepted (`Proofs/NoInternal*.lean`) -/
+theorem typechecker_never_internal (lint : Bool) (src : List HidVerif.Hid.Lex.Line) (p : HidVerif.Hid.Parse.PProgram)
+    (hparse : HidVerif.Hid.Parse.parse src = .ok p) (m : String) : HidVerif.Hid.TC.tcProgram lint p ≠ .error (.internal m) :=
+  HidVerif.Hid.TC.typechecker_never_internal lint src p hparse m
+
+/-- **the front end is total**: for every source text the model answers a located lexer error, a located parser error,
+a type error, or a typed tree — it neither runs out of fuel nor reports an internal error -/
+theorem front_end_total (lint : Bool) (src : List HidVerif.Hid.Lex.Line) :
+    (∃ c, HidVerif.Hid.Parse.parse src = .error (.lexer c)) ∨ (∃ c, HidVerif.Hid.Parse.parse src = .error (.parser c)) ∨
+    (∃ p, HidVerif.Hid.Parse.parse src = .ok p ∧
+      ((∃ tp, HidVerif.Hid.TC.tcProgram lint p = .ok tp) ∨ (∃ msg, HidVerif.Hid.TC.tcProgram lint p = .error (.tc msg)))) := by
+  rcases parse_total src with ⟨p, hp⟩ | h | h
+  · refine Or.inr (Or.inr ⟨p, hp, ?_⟩)
+    cases ht : HidVerif.Hid.TC.tcProgram lint p with
+    | ok tp => exact Or.inl ⟨tp, rfl⟩
+    | error e =>
+      cases e with
+      | tc msg => exact Or.inr ⟨msg, rfl⟩
+      | internal m => exact absurd ht (typechecker_never_internal lint src p hp m)
+  · exact Or.inl h
+  · exact Or.inr (Or.inl h)
+
+/-- the two outcomes on the typechecker's side both occur -/
+example :
+    let line (s : String) : List HidVerif.Hid.Lex.Line := [s.toList.map Char.toNat]
+    let run (s : String) : Nat := match HidVerif.Hid.Parse.parse (line s) with
+      | .ok p => (match HidVerif.Hid.TC.tcProgram false p with | .ok _ => 0 | .error (.tc _) => 1 | .error (.internal _) => 2)
+      | .error _ => 3
+    run "empty !d() { !is_defeat(); } empty @is_you() { int i = 0; while (true) { i += 1; if (i > 3) { break; } } try { !d(); } undo { } }" = 0 ∧
+    run "empty @is_you() { int i = true + 1; }" = 1 ∧ run "empty @is_you() { break; }" = 3 := by
+  refine ⟨by decide +kernel, by decide +kernel, by decide +kernel⟩
 
 end HidVerif.Props.C10
